@@ -925,12 +925,14 @@ def _insert_js_css_to_default_locations(
         else:
             raise ValueError(f"Unexpected tag name '{tag_name}'")
 
-    # Then do two string insertions. First the CSS, because we assume that <head> is before <body>.
+    # Then do two string insertions. First the CSS. The inserted CSS shifts the position of `</body>`
+    # only if that `</body>` comes after the `</head>` (we cannot assume that <head> is before <body>).
     index_offset = 0
     updated_html = html_content
     if css_content is not None and first_end_head_tag_index is not None:
         updated_html = updated_html[:first_end_head_tag_index] + css_content + updated_html[first_end_head_tag_index:]
-        index_offset = len(css_content)
+        if last_end_body_tag_index is not None and last_end_body_tag_index > first_end_head_tag_index:
+            index_offset = len(css_content)
         did_modify_html = True
 
     if js_content is not None and last_end_body_tag_index is not None:
